@@ -748,3 +748,36 @@ def _chunks(name, method, iv, collect_slice=True):
 _chunks("newman_betweenness[master]", "Network.newman_betweenness", "index")
 _chunks("nsi_newman_betweenness[master]", "Network.nsi_newman_betweenness", "idx")
 _chunks("nsi_arenas_betweenness[master]", "Network.nsi_arenas_betweenness", "index", collect_slice=False)
+
+# ============================================================================ Python/NumPy glue under contract (py_mode, NumPy-lite semantics)
+# C09 MASK: A[i,j] = 1  <=>  i != j and S[i,j] > threshold   (strict; the flat stride N+1 hits exactly the diagonal)
+_c = K("ClimateNetwork._calculate_threshold_adjacency", "climate/climate_network.py", lang="py",
+       func="ClimateNetwork._calculate_threshold_adjacency", props=("C09",), py_mode=True,
+       inputs={"similarity_measure": "arr:float64:2", "threshold": "float"},
+       requires=["shape(similarity_measure,1)==shape(similarity_measure,0)"],
+       ensures=["shape(result,0)==shape(similarity_measure,0) and shape(result,1)==shape(similarity_measure,0)",
+                "all(iff(result[i,j]==1, i!=j and similarity_measure[i,j]>threshold) and (result[i,j]==0 or result[i,j]==1) "
+                "for i in range(shape(similarity_measure,0)) for j in range(shape(similarity_measure,0)))"],
+       checks=("divzero", "shape", "narrow"))
+_c.region = "body"
+
+# C13 WINDOW: the boolean masks of Data.set_window are the closed-interval predicates of the statement
+# (all-true when the two bounds of an axis coincide; "either pair equal => all nodes" for space, as documented)
+_W = {"window.time_min": "float", "window.time_max": "float", "window.lat_min": "float", "window.lat_max": "float",
+      "window.lon_min": "float", "window.lon_max": "float", "full_time": "arr:float64:1", "full_lat_seq": "arr:float64:1",
+      "full_lon_seq": "arr:float64:1"}
+_c = K("Data.set_window[masks]", "core/data.py", lang="py", func="Data.set_window", props=("C13",), py_mode=True, inputs=_W,
+       requires=["shape(full_lat_seq,0)==shape(full_lon_seq,0)"],
+       asserts={
+           "time = full_time[time_indices]": [
+               "all(iff(time_indices[i]==1, window.time_min==window.time_max or "
+               "(window.time_min<=full_time[i] and full_time[i]<=window.time_max)) for i in range(shape(full_time,0)))"],
+           "lat_seq = full_lat_seq[space_indices]": [
+               "all(iff(space_indices[i]==1, window.lat_min==window.lat_max or window.lon_min==window.lon_max or "
+               "(window.lat_min<=full_lat_seq[i] and full_lat_seq[i]<=window.lat_max and "
+               "window.lon_min<=full_lon_seq[i] and full_lon_seq[i]<=window.lon_max)) for i in range(shape(full_lat_seq,0)))"],
+           # the same two masks select the observable and the grid (shape agreement by construction)
+           "lon_seq = full_lon_seq[space_indices]": []},
+       checks=("shape",))
+_c.region = "body"
+_c.required_asserts = ["time = full_time[time_indices]", "lat_seq = full_lat_seq[space_indices]"]
